@@ -43,7 +43,7 @@ RULE = (
 ASSUMPTIONS = ["every top-level call of the task starts its own workflow (main workflow task), as DistributedInvocation.from_parent does"]
 REAL = ["Task.wf / WorkflowContext / DeterministicExecutor", "state backend workflow data (both families)", "DistributedInvocation.run retry path", "ThreadRunner"]
 STUBBED = ["thread scheduling", "clock (base time comes from the virtual clock)", "uuid4"]
-PROBES = ["reexecuted_after_ops", "two_workflows_same_runner", "concurrent_workflows", "replayed_in_other_process", "subtask_replayed"]
+PROBES = ["reexecuted_after_ops", "two_workflows_same_runner", "concurrent_workflows", "replayed_in_other_process", "subtask_replayed", "nested_sub_workflow"]
 
 
 def plan(tier: str) -> list[dict]:
@@ -77,11 +77,19 @@ def run(seed: int, params: dict, replay: dict | None = None) -> dict:
         for att in range(1, rng.choice([1, 1, 2, 3])):
             fail_at[str(att)] = rng.randint(1, len(ops))
         scripts.append({"n": f"w{i}", "ops": ops, "fail_at": fail_at})
+    # sub-workflows: the task is declared with force_new_workflow and some workflows call it again from inside
+    nested_mode = rng.random() < 0.4
+    if nested_mode:
+        for s_ in scripts:
+            if rng.random() < 0.7:
+                n_ops: list[Any] = [rng.choice(["random", "uuid", "time"]) for _ in range(rng.randint(1, 3))]
+                s_["ops"].insert(rng.randint(0, len(s_["ops"])), ["nested", {"n": s_["n"] + "n", "ops": n_ops, "fail_at": {}}])
+                s_["fail_at"] = {}  # a retried parent would launch the nested workflow again: kept out of this mode
     schedule = replay.get("schedule") if replay else None
     viol: list[dict] = []
     with Deployment(seed, stack, n_runners, policy=policy, policy_arg=parg, schedule=schedule, max_steps=300_000, max_time=120.0, conf={"max_threads": slots}) as d:
         sim = d.sim
-        d.register(simtasks.wf_script, max_retries=3)
+        d.register(simtasks.wf_script, max_retries=3, **({"force_new_workflow": True} if nested_mode else {}))
         d.register(simtasks.add)
         simtasks.WF_LOG.clear()
         ids: list[str] = []
@@ -123,11 +131,20 @@ def run(seed: int, params: dict, replay: dict | None = None) -> dict:
                 st["probe.two_workflows_same_runner"] = 1
             if slots > 1 and n_wf > 1:
                 st["probe.concurrent_workflows"] = 1
+            all_scripts = list(scripts) + [op[1] for s_ in scripts for op in s_["ops"] if isinstance(op, list) and op[0] == "nested"]
+            if nested_mode:
+                st["probe.nested_sub_workflow"] = sum(1 for s_ in all_scripts if s_["n"].endswith("n"))
+                for wf_id, entries in by_wf.items():
+                    names_ = sorted({e["name"] for e in entries})
+                    if len(names_) > 1:
+                        viol.append({"signature": f"C18/{stack}/workflows-share-identity", "message": f"the executions of {names_} (a workflow and the force_new_workflow call it made) carry the same workflow id {wf_id}: their deterministic values and records are shared"})
             all_values: dict[tuple, str] = {}
             for wf_id, entries in by_wf.items():
+                if len({e["name"] for e in entries}) > 1:
+                    continue
                 entries.sort(key=lambda e: e["attempt"])
                 name = entries[0]["name"]
-                script = next(s for s in scripts if s["n"] == name)
+                script = next(s for s in all_scripts if s["n"] == name)
                 if any(e["attempt"] > 1 and entries[0]["values"] for e in entries):
                     st["probe.reexecuted_after_ops"] = st.get("probe.reexecuted_after_ops", 0) + 1
                 ref = max(entries, key=lambda e: len(e["values"]))["values"]
@@ -165,14 +182,14 @@ def run(seed: int, params: dict, replay: dict | None = None) -> dict:
                 # sub-tasks: once per workflow and call
                 launched: dict[tuple, set[str]] = {}
                 for e in entries:
-                    ops_t = [op for op in script["ops"] if not isinstance(op, str)]
+                    ops_t = [op for op in script["ops"] if not isinstance(op, str) and op[0] == "task"]
                     seen_t = [v[1] for v in e["values"] if v[0] == "task"]
                     for op, inv_id in zip(ops_t, seen_t):
                         launched.setdefault((op[1], op[2]), set()).add(inv_id)
                 for call, invs in launched.items():
                     if len(invs) > 1:
                         viol.append({"signature": f"C18/{stack}/subtask-launched-twice", "message": f"workflow {name}: execute_task(add, {call}) returned {len(invs)} different invocations across executions: {sorted(w.alias(i) for i in invs)}"})
-            missing = [s["n"] for s in scripts if not any(e["name"] == s["n"] for e in log)]
+            missing = [s["n"] for s in all_scripts if not any(e["name"] == s["n"] for e in log)]
             if missing:
                 viol.append({"signature": f"C18/{stack}/workflow-never-ran", "message": f"workflows {missing} have no logged execution"})
         common.update(
